@@ -207,7 +207,9 @@ fn check_c24(plan: &Plan, out: &Outcome) -> Verdict {
                                     // tie: whoever the reader chose must stay until an event
                                     if got {
                                         if let Some(prev) = sticky[rd].get(key) {
-                                            if *prev != *w && others.iter().any(|o| o.0 == *prev && o.2) {
+                                            // a flip between equally strong writers only: taking the instance over from a weaker
+                                            // previous owner is what ownership strength is for
+                                            if *prev != *w && strength(*prev) == sw && others.iter().any(|o| o.0 == *prev && o.2) {
                                                 v.violate("C24", "C24.tie-flip", "C24.tie-flip".into(), format!("reader {rd} presented seq {uid} of writer {w} on instance {key} although the equally strong writer {prev} owns it and is still live"));
                                             }
                                         }
